@@ -92,7 +92,7 @@ def run (j : Json) : Except String Json := do
     let nonFast ← strList j "nonFast"
     let created := createOk Mp nonFast cls
     out := out ++ [("created", .bool created), ("fsafe", .bool (fsafeCls nonFast cls)),
-                   ("fplain", .bool (fplainInst cls x)),
+                   ("fplain", .bool (fplainInst cls x)), ("fwf", .bool (fwf O cls x)),
                    ("fastDefects", strs (fastDefects Mp nonFast compact sn cls x))]
     if created then
       out := out ++ [("fast", resToJson (fastSerialize Mp nonFast sn compact cls x))]
